@@ -15,10 +15,11 @@ func init() {
 	register(&Prop{
 		ID:          "C09",
 		Title:       "Lossy delivery preserves the folded view; slow readers never block writers",
-		Explanation: "R09.1 extracts the complete 4x4 (x last-seed flag) decision table of mergeChanges and checks fold-equivalence constraints on a per-id view: a trailing REMOVE stays a REMOVE (dropped exactly after a pending ADD), anything else is delivered present-making with b's new value, ADD then non-REMOVE stays ADD, REMOVE then ADD is REPLACE, old values chain from the older change, last-seed is the disjunction. R09.2 in DropExcess and mergeCollectionExcess every send on the output is a select alternative next to a receive from the input, the stage exits when the input closes, closes its output by defer, and DropExcess overwrites its slot with each received message. R09.3 the lossy wrapper is applied exactly when !Backpressure (decision tables of both onUpdate functions). R09.4 Value.set publishes with a context from context.WithTimeout(positive constant), returns an error when the deadline was exceeded, and listener.send selects on the send context. Does NOT decide fold-equivalence of the merge queue over all interleavings (FIFO-of-ids logic), nor timing.",
+		Explanation: "R09.1 extracts the complete 4x4 (x last-seed flag) decision table of mergeChanges and checks fold-equivalence constraints on a per-id view: a trailing REMOVE stays a REMOVE (dropped exactly after a pending ADD), anything else is delivered present-making with b's new value, ADD then non-REMOVE stays ADD, REMOVE then ADD is REPLACE, old values chain from the older change, last-seed is the disjunction. R09.2 in DropExcess and mergeCollectionExcess every send on the output is a select alternative next to a receive from the input, the stage exits when the input closes, closes its output by defer, and DropExcess overwrites its slot with each received message. R09.3 the lossy wrapper is applied exactly when !Backpressure (decision tables of both onUpdate functions). R09.4 Value.set publishes with a context from context.WithTimeout(positive constant), returns an error when the deadline was exceeded, and listener.send selects on the send context. R09.17 DropExcess clears its has-a-message flag only on the path through the successful send. Does NOT decide fold-equivalence of the merge queue over all interleavings (FIFO-of-ids logic), nor timing.",
 		Assumptions: []string{"select chooses a ready case", "context.WithTimeout cancels at the deadline"},
 		Run:         runC09,
 		Controls: []Control{
+			{Name: "drop-excess-clears-the-slot-after-the-select", File: "internal/minibus/util.go", Old: "\t\t\t\t\t// message sent successfully\n\t\t\t\t\thasMessage = false\n\t\t\t\t}\n", New: "\t\t\t\t\t// message sent successfully\n\t\t\t\t}\n\t\t\t\thasMessage = false\n", Expect: "R09.17"},
 			{Name: "backpressure-false-is-a-no-op", File: "pkg/resource/opt.go", Old: "func WithBackpressure(backpressure bool) ReadOption {\n", New: "func WithBackpressure(backpressure bool) ReadOption {\n\tif !backpressure {\n\t\treturn EmptyReadOption{}\n\t}\n", Expect: "R09.16"},
 			{Name: "timeout-returns-the-nil-update-error", File: "pkg/resource/value.go", Old: "\t\treturn nil, errors.New(\"bus.Send blocked for too long\")\n\t}\n\n\treturn newValue, err", New: "\t\treturn nil, err\n\t}\n\n\treturn newValue, err", Expect: "R09.4"},
 			{Name: "backpressure-on-by-default", File: "pkg/resource/opt.go", Old: "\trr := &ReadRequest{}\n", New: "\trr := &ReadRequest{Backpressure: true}\n", Expect: "R09.10"},
@@ -74,6 +75,8 @@ func runC09(c *an.Ctx) {
 	c.Min("R09.15", 2)
 	r0916(c, "R09.16")
 	c.Min("R09.16", 2)
+	r0917(c, "R09.17")
+	c.Min("R09.17", 1)
 	r0911(c, "R09.11")
 	c.Min("R09.11", 3)
 }
@@ -219,6 +222,89 @@ func r091as(c *an.Ctx, rule string) {
 }
 
 // stageShape checks a lossy stage goroutine (R09.2 / R10.x share this).
+// r0917: the lossy stage forgets its pending message only by delivering it. DropExcess keeps one message and a flag
+// saying that it has one; the flag goes back to false on the path through the successful send and on no other. Cleared
+// after the select as a whole, taking a newer message from the input also marks the slot empty: the newest value is
+// then never delivered to a subscriber that was slow for two writes.
+func r0917(c *an.Ctx, rule string) {
+	outer := mustFunc(c, rule, "internal/minibus", "", "DropExcess")
+	if outer == nil {
+		return
+	}
+	name := "internal/minibus.DropExcess"
+	n, ok := 0, true
+	var pos token.Pos
+	for _, f := range an.WithClosures(outer) {
+		var sel *ssa.Select
+		sendIdx := -1
+		an.Instrs(f, func(in ssa.Instruction) {
+			if s0, isS := in.(*ssa.Select); isS {
+				for i, st := range s0.States {
+					if st.Dir == types.SendOnly {
+						sel, sendIdx = s0, i
+					}
+				}
+			}
+		})
+		if sel == nil {
+			continue
+		}
+		// the block entered when the send case was chosen
+		var sendBlock *ssa.BasicBlock
+		for _, r := range *sel.Referrers() {
+			ex, isE := r.(*ssa.Extract)
+			if !isE || ex.Index != 0 {
+				continue
+			}
+			for _, r2 := range *ex.Referrers() {
+				bo, isB := r2.(*ssa.BinOp)
+				if !isB || bo.Op != token.EQL {
+					continue
+				}
+				k, isC := an.ConstInt(bo.Y)
+				if !isC || int(k) != sendIdx {
+					continue
+				}
+				for _, r3 := range *bo.Referrers() {
+					if iff, isIf := r3.(*ssa.If); isIf && len(iff.Block().Succs[0].Preds) == 1 {
+						sendBlock = iff.Block().Succs[0] // (a block other paths join is not "the send case")
+					}
+				}
+			}
+		}
+		an.Instrs(f, func(in ssa.Instruction) {
+			phi, isPhi := in.(*ssa.Phi)
+			if !isPhi {
+				return
+			}
+			if b, isB := phi.Type().Underlying().(*types.Basic); !isB || b.Kind() != types.Bool {
+				return
+			}
+			for i, e := range phi.Edges {
+				v, isC := an.ConstBool(e)
+				if !isC || v {
+					continue
+				}
+				pred := phi.Block().Preds[i]
+				if !reachesAvoiding(sel.Block(), pred, phi.Block()) && pred != sel.Block() {
+					continue // set before the loop
+				}
+				n++
+				if sendBlock == nil || !(sendBlock == pred || sendBlock.Dominates(pred)) {
+					ok = false
+					pos = phi.Pos()
+				}
+			}
+		})
+	}
+	if pos == token.NoPos {
+		pos = outer.Pos()
+	}
+	c.SawFunc(name)
+	c.Check(ok, rule, name+"|the pending message is forgotten only by sending it", pos, fmt.Sprintf("%d clearing edge(s), all behind the send case", n),
+		"the has-a-message flag is cleared on a path that did not deliver the pending message (after the select as a whole): replacing the pending message by a newer one empties the slot, and the most recent value never reaches the subscriber")
+}
+
 func stageShape(c *an.Ctx, rule string, outer *ssa.Function, label string, slotOverwrite bool) {
 	if outer == nil {
 		return
